@@ -119,7 +119,13 @@ def extract_type(t):
     ctx = rules.Ctx()
     text = rustcut.strip_comments(text)
     text = re.sub(r'^[ \t]*#\[derive\([^\]]*\)\]\s*\n', '', text, flags=re.M)
+    if t.get('structural'):
+        # fieldless enum compared with `==` in the code: derived PartialEq is structural equality
+        text = '#[derive(PartialEq, Eq, Clone, Copy, Structural)]\n' + text
     text = re.sub(r'^[ \t]*#\[default\]\s*\n', '', text, flags=re.M)
+    if t['kind'] == 'struct':
+        # R12: visibility is irrelevant inside the generated module
+        text = re.sub(r'^([ \t]+)(\w+\s*:)', r'\1pub \2', text, flags=re.M)
     text = rules.r1_bytes(text, ctx)
     text = rules.custom_subst(text, ctx, t.get('subst'))
     return dict(text=text, src_line=line, sha=sha(text), applied=ctx.applied)
